@@ -194,7 +194,12 @@ pub struct RSeq {
     pub files: BTreeMap<String, Vec<u8>>,
     pub markers: BTreeMap<String, usize>,
     pub probes: BTreeMap<String, Vec<String>>,
+    /// a reference pass did not return within the time limit (its thread is abandoned)
+    pub hung: Option<String>,
 }
+
+/// Set when a reference pass had to be abandoned: the worker process must be replaced.
+pub static REF_HUNG: std::sync::atomic::AtomicBool = std::sync::atomic::AtomicBool::new(false);
 
 impl RSeq {
     /// all processed files succeeded
@@ -239,15 +244,23 @@ pub fn rseq(
             r.err_text.insert(i, "dependency failed".into());
             continue;
         }
-        let res = std::panic::catch_unwind(|| {
-            txtpp::verif::preprocess_one(
-                shell,
-                &base_abs,
-                &root.join(&s.path),
-                mode.clone(),
-                trailing_newline,
-            )
+        // on its own thread with a real-time limit: a changed tree may block inside a pass
+        let (tx, rx) = std::sync::mpsc::channel();
+        let (sh, ba, fp, md) = (shell.to_string(), base_abs.clone(), root.join(&s.path), mode.clone());
+        let _ = std::thread::Builder::new().name("reference".into()).spawn(move || {
+            let res = std::panic::catch_unwind(|| txtpp::verif::preprocess_one(&sh, &ba, &fp, md, trailing_newline));
+            let _ = tx.send(res);
         });
+        let res = match rx.recv_timeout(std::time::Duration::from_secs(90)) {
+            Ok(r) => r,
+            Err(_) => {
+                r.hung = Some(s.path.clone());
+                r.ok.insert(i, false);
+                r.err_text.insert(i, "reference pass did not return within 90 s".into());
+                REF_HUNG.store(true, std::sync::atomic::Ordering::SeqCst);
+                break;
+            }
+        };
         match res {
             Ok(Ok(())) => {
                 r.ok.insert(i, true);
